@@ -503,4 +503,153 @@ def handlerServe (t : Translator) (cfg : Cfg) (acc : Accept) (_rc : ReqCtx) (exe
   | some e => t.respond cfg acc (plain e)
   | none => serve t cfg acc ctx
 
+/-! ## endpoints of mechanisms: authentication strategies (round 5)
+
+The remote authorizer, the generic authenticator, the generic contextualizer and the OAuth2 introspection
+authenticator talk to their endpoint through `endpoint.Endpoint`; `Endpoint.CreateRequest` applies the endpoint's
+authentication strategy (`auth:`) to the request first. A strategy can fail at request time — above all
+`oauth2_client_credentials`, which asks a token endpoint for an access token — and that failure travels upwards
+wrapped twice: `CreateRequest` puts `ErrInternal "failed to authenticate request"` in front of it, the mechanism
+`ErrInternal "failed creating request"`. -/
+
+/-- what became of the token request of an `oauth2_client_credentials` strategy (`clientcredentials.Config.Token`
+without a usable cached token → `fetchToken`) -/
+inductive TokenOutcome where
+  /-- `200` with a token document -/
+  | issued
+  /-- `client.Do` failed and the `*url.Error` is no timeout (connection refused, closed, reset, the context of the
+  request cancelled): `errorchain.New(ErrCommunication).CausedBy(cause)` -/
+  | sendFailed (cause : Err)
+  /-- `client.Do` failed and `(*url.Error).Timeout()` holds (deadline of the context exceeded, network timeout):
+  `errorchain.New(ErrCommunicationTimeout).CausedBy(cause)` -/
+  | sendTimedOut (cause : Err)
+  /-- a status other than `200` and `400`: `ErrCommunication "unexpected response code"` -/
+  | unexpectedStatus
+  /-- `400`: with an OAuth2 error document `ErrCommunication` caused by the (foreign) `*TokenErrorResponse`, with
+  anything else `ErrCommunication "failed to fetch token"` -/
+  | badRequest (errorDocument : Bool)
+  /-- `200` whose body is not JSON: `ErrInternal "failed to unmarshal response"` caused by the decoder's error -/
+  | okUnparsable
+  /-- `200` carrying an OAuth2 error document: `ErrCommunication` caused by the `*TokenErrorResponse` -/
+  | okErrorDocument
+
+/-- the error `Config.Token` returns -/
+def TokenOutcome.err : TokenOutcome → Option Err
+  | .issued => none
+  | .sendFailed cause => some (.chain [.kind .communication, cause])
+  | .sendTimedOut cause => some (.chain [.kind .timeout, cause])
+  | .unexpectedStatus => some (.chain [.kind .communication])
+  | .badRequest true => some (.chain [.kind .communication, .foreign])
+  | .badRequest false => some (.chain [.kind .communication])
+  | .okUnparsable => some (.chain [.kind .internal, .foreign])
+  | .okErrorDocument => some (.chain [.kind .communication, .foreign])
+
+/-- the authentication strategies of an endpoint (`internal/rules/endpoint/authstrategy`) -/
+inductive Strategy where
+  /-- no `auth:` -/
+  | none
+  /-- `basic_auth`, `api_key` (with an `in` the configuration admits): `Apply` cannot fail -/
+  | basicAuth
+  | apiKey
+  | clientCredentials (t : TokenOutcome)
+  /-- `http_message_signatures`: `Apply` fails with the (foreign) error of the signer when a component to be signed
+  is not on the request; a key store that is missing makes the mechanism fail to LOAD, not a request -/
+  | signatures (signFails : Bool)
+
+/-- `AuthenticationStrategy.Apply` -/
+def Strategy.apply : Strategy → Option Err
+  | .clientCredentials t => t.err
+  | .signatures true => some .foreign
+  | _ => Option.none
+
+/-- one error put in front of a cause: `errorchain.NewWithMessage(heimdall.Err<k>, "…").CausedBy(cause)` -/
+def wrapKind (k : Kind) (cause : Err) : Err := .chain [.kind k, cause]
+
+/-- `Endpoint.CreateRequest` when the strategy fails: `ErrInternal "failed to authenticate request"` caused by the
+strategy's error. (`Endpoint.SendRequest` — used by the client credentials flow itself — hands this on as it is.) -/
+def authenticateRequest (s : Strategy) : Option Err := s.apply.map (wrapKind .internal)
+
+/-- the wrapping a failure of an endpoint's strategy has got when it leaves the mechanism: `ErrInternal "failed
+creating request"` (remote authorizer, generic authenticator, generic contextualizer, OAuth2 introspection
+authenticator) around `CreateRequest`'s `ErrInternal "failed to authenticate request"` -/
+def endpointWrap (cause : Err) : Err := wrapKind .internal (wrapKind .internal cause)
+
+/-- the failure with which a mechanism whose endpoint authenticates with strategy `s` ends the pipeline before it has
+sent anything to its endpoint (`none`: the request to the endpoint is made) -/
+def createRequest (s : Strategy) : Option Err := s.apply.map endpointWrap
+
+/-! ## the response writer, informational responses, the log level (round 5) -/
+
+/-- `log.level` -/
+inductive LogLevel where
+  | trace | debug | info | warn | error | disabled
+deriving DecidableEq, Repr, Inhabited
+
+/-- an informational status: net/http sends it at once and goes on waiting for the final status (`101 Switching
+Protocols` is final) -/
+def isInformational (code : Int) : Bool := 100 ≤ code && code ≤ 199 && code != 101
+
+/-- net/http's `ResponseWriter` of one request, as far as the status is concerned -/
+structure Writer where
+  /-- informational responses sent so far -/
+  informational : List Int
+  /-- the final status line, once written -/
+  status : Option Int
+deriving DecidableEq, Repr
+
+def Writer.fresh : Writer := ⟨[], none⟩
+
+/-- `ResponseWriter.WriteHeader(code)`: after the final status line further calls are ignored ("superfluous
+WriteHeader"); an informational code is sent and does NOT count as the final status -/
+def Writer.writeHeader (w : Writer) (code : Int) : Writer :=
+  match w.status with
+  | some _ => w
+  | none =>
+    if isInformational code then { w with informational := w.informational ++ [code] }
+    else { w with status := some code }
+
+/-- the status the client gets when the handler chain has returned: without a final `WriteHeader` net/http answers
+`200 OK` -/
+def Writer.finish (w : Writer) : Int := w.status.getD 200
+
+/-- the `WriteHeader` hook of the dump middleware (`internal/handler/middleware/http/dump`, decision and proxy
+services): active at log level `trace` only; it dumps the status line and the header fields of the FIRST call
+(`dumped`) and forwards EVERY call to the wrapped writer -/
+def dumpWriteHeader (lvl : LogLevel) (dumped : Bool) (w : Writer) (code : Int) : Bool × Writer :=
+  if lvl == .trace then (true, w.writeHeader code) else (dumped, w.writeHeader code)
+
+/-- a sequence of `WriteHeader` calls made by the handler below the middleware chain -/
+def writeHeaders (lvl : LogLevel) : Bool × Writer → List Int → Bool × Writer
+  | s, [] => s
+  | s, c :: cs => writeHeaders lvl (dumpWriteHeader lvl s.1 s.2 c) cs
+
+/-- how the exchange with the upstream of the proxy service ends, after any informational responses -/
+inductive UpstreamEnd where
+  /-- the header section of a final response arrives: it is forwarded (the positive answer) -/
+  | answers
+  /-- connection refused / closed / reset, a partial status line or header section, no header within
+  `serve.proxy.timeout.read`: `RoundTrip` fails -/
+  | dies
+deriving DecidableEq, Repr
+
+/-- `ReverseProxy.ErrorHandler` in the proxy's `Finalize`: `ErrCommunication "Failed to proxy request"` caused by the
+transport's (foreign) error -/
+def upstreamFailure : Err := .chain [.kind .communication, .foreign]
+
+/-- the proxy service forwarding a request whose pipeline succeeded, to an upstream which first sends the
+informational responses `infos` (`httputil.ReverseProxy` hands each to `rw.WriteHeader`) and then `up`:
+(informational responses the client gets, answer). The status of the answer to a failure is the one net/http's writer
+ends up with after the error handler's `WriteHeader` went through the middleware chain. -/
+def proxyForward (lvl : LogLevel) (cfg : Cfg) (acc : Accept) (infos : List Int) (up : UpstreamEnd) :
+    List Int × Out :=
+  let s := writeHeaders lvl (false, Writer.fresh) infos
+  match up with
+  | .answers => (s.2.informational, .allowed)
+  | .dies =>
+    match http.respond cfg acc (plain upstreamFailure) with
+    | .resp r =>
+      let s' := writeHeaders lvl s [r.status]
+      (s'.2.informational, .resp { r with status := s'.2.finish })
+    | o => (s.2.informational, o)
+
 end Heimdall.ErrMap
